@@ -64,9 +64,19 @@ fn needs_quote(id: &str) -> bool {
     !is_valid_as_id(id) || is_keyword(id)
 }
 
+/// Escapes the content of a Candid text literal. This is Rust's `escape_debug`,
+/// except for NUL: the Candid lexer has no `\0` escape (it reads `\0a` as the
+/// byte 0x0a and rejects `\0` before a non-hex character), so NUL is `\u{0}`.
+pub fn escape_text(s: &str) -> String {
+    s.split('\0')
+        .map(|part| part.escape_debug().to_string())
+        .collect::<Vec<_>>()
+        .join("\\u{0}")
+}
+
 fn ident_string(id: &str) -> String {
     if needs_quote(id) {
-        format!("\"{}\"", id.escape_debug())
+        format!("\"{}\"", escape_text(id))
     } else {
         id.to_string()
     }
@@ -382,7 +392,7 @@ pub fn compile_with_docs(env: &TypeEnv, actor: &Option<Type>, docs: &DocComments
 #[cfg_attr(docsrs, doc(cfg(feature = "value")))]
 #[cfg(feature = "value")]
 pub mod value {
-    use super::{ident_string, pp_label_raw};
+    use super::{escape_text, ident_string, pp_label_raw};
     use crate::pretty::utils::*;
     use crate::types::value::{IDLArgs, IDLField, IDLValue};
     use crate::types::Label;
@@ -493,7 +503,7 @@ pub mod value {
                 Int64(n) => write!(f, "{} : int64", pp_num_str(&n.to_string())),
                 Float32(_) => write!(f, "{} : float32", number_to_string(self)),
                 Float64(_) => write!(f, "{} : float64", number_to_string(self)),
-                Text(s) => write!(f, "{s:?}"),
+                Text(s) => write!(f, "\"{}\"", escape_text(s)),
                 None => write!(f, "null"),
                 Reserved => write!(f, "null : reserved"),
                 Principal(id) => write!(f, "principal \"{id}\""),
@@ -612,7 +622,7 @@ pub mod value {
             return RcDoc::as_string(format!("{v:?}"));
         }
         match v {
-            Text(ref s) => RcDoc::as_string(format!("\"{}\"", s.escape_debug())),
+            Text(ref s) => RcDoc::as_string(format!("\"{}\"", escape_text(s))),
             Opt(v) if has_type_annotation(v) => {
                 kwd("opt").append(enclose("(", pp_value(depth - 1, v), ")"))
             }
